@@ -382,7 +382,11 @@ func c18(r *core.Run) {
 		for i := 0; i < nc; i++ {
 			e := pool[rng.Intn(len(pool))]
 			es = append(es, e)
-			cols = append(cols, mkCol(e, fmt.Sprintf("c%d", i)))
+			name := fmt.Sprintf("c%d", i)
+			if (int(ci)+i)%3 == 0 {
+				name = "t." + name // qualified names as JOINs produce them
+			}
+			cols = append(cols, mkCol(e, name))
 		}
 		rows := []int{0, 1, 2, 5}[rng.Intn(4)]
 		data := c18Block(rng, cols, rows)
@@ -403,7 +407,8 @@ func c18(r *core.Run) {
 			}
 			targets[i], targets[j] = targets[j], targets[i]
 		case "renamed":
-			targets[rng.Intn(nc)].Name = "other"
+			i := rng.Intn(nc)
+			targets[i].Name = c18NearMiss(targets[i].Name, int(ci))
 		case "extra-target":
 			targets = append(targets, mkTarget(pool[rng.Intn(len(pool))], "extra"))
 		case "missing-target":
@@ -461,7 +466,8 @@ func c18(r *core.Run) {
 				change := []string{"same", "renamed-column", "swapped-columns", "retyped-column"}[rng.Intn(4)]
 				switch change {
 				case "renamed-column":
-					cols2[rng.Intn(nc)].Name = "zz"
+					i := rng.Intn(nc)
+					cols2[i].Name = c18NearMiss(cols2[i].Name, int(ci)+step)
 				case "swapped-columns":
 					if nc >= 2 {
 						cols2[0], cols2[1] = cols2[1], cols2[0]
@@ -679,5 +685,23 @@ func c18SameBaseGroups() [][]string {
 
 func readAllSafe(c val.LibCol) (out []ref.Val) {
 	_ = core.Recover(func() { out = readAll(c) })
+	return out
+}
+
+// c18NearMiss returns a name that differs from n: unrelated, or one a lenient comparison might
+// confuse with it (qualified / unqualified, prefix, suffix, case, surrounding space).
+func c18NearMiss(n string, v int) string {
+	base := n
+	if i := strings.LastIndexByte(n, '.'); i >= 0 {
+		base = n[i+1:]
+	}
+	vs := []string{"other", "u." + n, n + ".x", strings.ToUpper(n), n + " ", " " + n, n[:len(n)-1], n[1:], "zz"}
+	if base != n {
+		vs = append(vs, base, n[:len(n)-len(base)-1], "u."+base)
+	}
+	out := vs[((v%len(vs))+len(vs))%len(vs)]
+	if out == n || out == "" {
+		return "other"
+	}
 	return out
 }
